@@ -83,31 +83,31 @@ func (s IDString) TypeLength() byte { return s.Enc<<6 | byte(len(s.Codes))&0x1f 
 // FSR holds the Full Sensor Record fields the library exposes, plus filler for
 // every other byte of the record so that neighbouring bits are exercised.
 type FSR struct {
-	Owner                        byte
-	Channel                      byte // 4 bits
-	LUN                          byte // 2 bits
-	Number                       byte
-	Entity                       byte
-	Logical                      bool
-	Instance                     byte // 7 bits
-	Ignore                       bool
-	SensorType, ReadingType      byte
-	Format                       byte // 2 bits
-	Rate                         byte // 3 bits
-	Percentage                   bool
-	BaseUnit, ModUnit            byte
-	Lin                          byte // 7 bits
-	M, B                         int  // -512..511
-	Tol                          byte // 6 bits
-	Acc                          int  // -512..511
-	AccExp                       byte // 2 bits
-	Dir                          byte // 2 bits
-	K2, K1                       int  // -8..7 (R exponent, B exponent)
-	NominalSpec, NormalMaxSpec, NormalMinSpec bool
+	Owner                                               byte
+	Channel                                             byte // 4 bits
+	LUN                                                 byte // 2 bits
+	Number                                              byte
+	Entity                                              byte
+	Logical                                             bool
+	Instance                                            byte // 7 bits
+	Ignore                                              bool
+	SensorType, ReadingType                             byte
+	Format                                              byte // 2 bits
+	Rate                                                byte // 3 bits
+	Percentage                                          bool
+	BaseUnit, ModUnit                                   byte
+	Lin                                                 byte // 7 bits
+	M, B                                                int  // -512..511
+	Tol                                                 byte // 6 bits
+	Acc                                                 int  // -512..511
+	AccExp                                              byte // 2 bits
+	Dir                                                 byte // 2 bits
+	K2, K1                                              int  // -8..7 (R exponent, B exponent)
+	NominalSpec, NormalMaxSpec, NormalMinSpec           bool
 	Nominal, NormalMax, NormalMin, SensorMax, SensorMin byte
-	Filler                       [43]byte
-	ID                           IDString
-	Trailing                     []byte // bytes after the ID string (OEM), may be empty
+	Filler                                              [43]byte
+	ID                                                  IDString
+	Trailing                                            []byte // bytes after the ID string (OEM), may be empty
 }
 
 func tc(v int, bits uint) uint16 { return uint16(v) & (1<<bits - 1) }
